@@ -136,6 +136,10 @@ func (x *Exec) callStatic(fr *frame, st *State, fn *ssa.Function, args []Val, bi
 	if x.fc != nil && x.fc.InlineMax >= 0 {
 		maxDepth = x.fc.InlineMax
 	}
+	if x.fc != nil && x.fc.Opts["inline-none"] != "" && !forceInline && fn.Parent() == nil {
+		// orchestrating function: callees without a contract are calls with unknown effects
+		noInline = true
+	}
 	if fn.Blocks == nil && fn.Pkg != nil {
 		fn.Pkg.Build()
 	}
@@ -901,10 +905,12 @@ func (x *Exec) builtinAppend(fr *frame, st *State, c *ssa.CallCommon, args []Val
 	{
 		nE := st.heap[key]
 		nref, noff := app(SInt, "s-ref", rv), app(idxS, "s-off", rv)
+		// element addresses are written exactly as slice indexing writes them (elt in Int mode)
+		elt := func(off Term, i string) string { return vc.elemIndex(off, raw(i, idxS)).S }
 		newAt := func(i string) string {
-			return "(select (select " + nE.S + " " + nref.S + ") " + x.addS(noff.S, i) + ")"
+			return "(select (select " + nE.S + " " + nref.S + ") " + elt(noff, i) + ")"
 		}
-		oldAt := func(i string) string { return "(select " + arrA.S + " " + x.addS(soff.S, i) + ")" }
+		oldAt := func(i string) string { return "(select " + arrA.S + " " + elt(soff, i) + ")" }
 		vc.assume(st.pc, raw(fmt.Sprintf("(forall ((i!q %s)) (! (=> %s (= %s %s)) :pattern (%s) :pattern (%s)))",
 			idxS, x.qrange("i!q", vc.idx(0).S, slen.S), newAt("i!q"), oldAt("i!q"), newAt("i!q"), oldAt("i!q")), SBool))
 		if n.C != nil && n.C.Int64() <= 8 {
